@@ -85,9 +85,9 @@ def build_graph(graph, gouts, root):
         vals[k] = v
         ins.append(v)
     inits = []
-    for k, c in ((3, 1.0), (4, 2.0), (5, 1.0 + 1e-9)):
+    for k, c in ((3, 1.0), (4, 2.0), (5, 1.0 + 1e-9), (6, [1.0])):
         t = ir.tensor(np.array(c, dtype=np.float64), name=f"v{k}")
-        v = ir.Value(name=f"v{k}", type=ir.TensorType(ir.DataType.DOUBLE), shape=ir.Shape([]), const_value=t)
+        v = ir.Value(name=f"v{k}", type=ir.TensorType(ir.DataType.DOUBLE), shape=ir.Shape(list(np.shape(c))), const_value=t)
         vals[k] = v
         inits.append(v)
     nodes = []
